@@ -101,7 +101,7 @@ class Ctx:
         self.rules[rule] = text
 
 
-def finish(ctx, level_explanation, trusted_base, files, replay_key=None):
+def finish(ctx, level_explanation, trusted_base, files, replay_key=None, quiet=False):
     """Label findings, write evidence + replay files, print the protocol lines, return the exit code."""
     from .model import AnalysisError
 
@@ -120,7 +120,7 @@ def finish(ctx, level_explanation, trusted_base, files, replay_key=None):
             kf.append((f, known_keys[(f.prop, f.key)]))
         else:
             viol.append(f)
-    official = os.path.abspath(ctx.root) == "/repo" and replay_key is None
+    official = os.path.abspath(ctx.root) == "/repo" and replay_key is None and not quiet
     if official:
         fdir = os.path.join(VERIF, "evidence", "findings")
     else:
@@ -185,6 +185,9 @@ def finish(ctx, level_explanation, trusted_base, files, replay_key=None):
     if official:
         with open(os.path.join(VERIF, "evidence", f"{ctx.prop}.json"), "w") as fh:
             json.dump(ev, fh, indent=1, default=str)
+    ctx.result = {"violations": [(f.rule, f.construct, f.loc) for f in viol], "known": [(f.rule, f.construct) for f, _ in kf], "code": 1 if viol else 0}
+    if quiet:
+        return ctx.result["code"]
     for l in lines:
         print(l)
     for n in ctx.notes:
